@@ -158,11 +158,12 @@ def build_harness(pkg):
     """go test -c of /verif/harness/src/<pkg> injected into /repo by overlay. Returns (path|None, log)."""
     os.makedirs(os.path.join(WORK, "bin"), exist_ok=True)
     with Lock("gobuild"):
-        ov = os.path.join(WORK, "overlay.json")
+        rt = "" if REPO == "/repo" else "_" + hashlib.sha1(REPO.encode()).hexdigest()[:8]
+        ov = os.path.join(WORK, f"overlay{rt}.json")
         rc, out = run([sys.executable, os.path.join(VERIF, "harness", "mkoverlay.py"), ov])
         if rc != 0:
             return None, out
-        final = os.path.join(WORK, "bin", f"{pkg}.test")
+        final = os.path.join(WORK, "bin", f"{pkg}{rt}.test")
         tmp = final + f".{os.getpid()}"
         rc, out = run(["go", "test", "-c", "-vet=off", "-tags", "verif", "-overlay", ov, "-o", tmp,
                        f"go.sia.tech/hostd/v2/internal/verifh/{pkg}"], cwd=REPO, env=GOENV, timeout=1200)
@@ -218,6 +219,8 @@ def parse_flags(out):
 def history_of(lines, lineno, reset_op):
     """Lines of the history containing 1-based lineno, up to and including it."""
     i = lineno - 1
+    if reset_op is None:      # case mode: every line is an independent case
+        return [lines[i]]
     start = i
     while start > 0 and not lines[start].startswith(reset_op):
         start -= 1
@@ -226,6 +229,8 @@ def history_of(lines, lineno, reset_op):
 
 def split_histories(lines, reset_op):
     cur, out = [], []
+    if reset_op is None:
+        return [[l] for l in lines if l.strip() and not l.startswith("#")]
     for l in lines:
         if l.startswith("#") or not l.strip():
             continue
@@ -246,7 +251,7 @@ class Runner:
         self.prop, self.tier, self.seed = prop, tier, seed
         self.cfg = PROPS[prop]
         self.engine = self.cfg["engine"]
-        self.reset_op = self.cfg.get("reset_op", "reset")
+        self.reset_op = None if self.cfg.get("case_mode") else self.cfg.get("reset_op", "reset")
         self.tmp = tempfile.mkdtemp(prefix=f"verif_{prop}_", dir=os.environ.get("VERIF_TMP", "/var/tmp"))
         self.driver_args = self.cfg.get("driver_args", [])
 
@@ -283,6 +288,9 @@ class Runner:
             _, fl, _, _, _ = self.replay_ops(binpath, ops, "shrink")
             return any((f["kind"], f["name"], f["op"]) == want for f in fl)
 
+        if self.reset_op is None:
+            lines, fl, _, _, _ = self.replay_ops(binpath, hist, "shrunk")
+            return lines, any((f["kind"], f["name"], f["op"]) == want for f in fl)
         head, body = hist[:1], hist[1:]
         if not fails(head + body):
             return hist, False  # not reproducible via replay
@@ -309,10 +317,11 @@ class Runner:
 
 
 def load_known():
-    p = os.path.join(VERIF, "known-findings.json")
-    if not os.path.exists(p):
-        return []
-    return json.load(open(p))
+    out = []
+    for p in [os.path.join(VERIF, "known-findings.json")] + sorted(glob.glob(os.path.join(VERIF, "known-findings.d", "*.json"))):
+        if os.path.exists(p):
+            out += json.load(open(p))
+    return out
 
 
 def write_evidence(prop, ev):
@@ -397,7 +406,7 @@ def main(argv):
             hs = split_histories(lines, R.reset_op)
             evals += len(hs)
             for h in hs:
-                body = [l for l in h[1:]]
+                body = [l for l in (h if R.reset_op is None else h[1:])]
                 kinds = {l.split(" ", 1)[0] for l in body}
                 if len(body) >= cfg.get("min_ops", 3) and len(kinds) >= cfg.get("min_kinds", 2) and any(nontrivial_re.search(l) for l in body):
                     distinct.add(hashlib.sha1("\n".join(h).encode()).hexdigest())
@@ -413,7 +422,10 @@ def main(argv):
             if rc != 0:
                 # harness crashed / timed out: that is an observation about the implementation (or our harness)
                 all_flags.append((tag, lines, dict(kind="HARNESS", line=len(lines), op="harness", name=f"exit{rc}", text=hout[-1500:])))
+            ff = cfg.get("flag_filter")
             for f in flags:
+                if ff and f["kind"] != "BADLINE" and not re.search(ff, f["name"]):
+                    continue      # belongs to a sibling property served by the same engine
                 all_flags.append((tag, lines, f))
 
         known = [k for k in load_known() if k.get("property") == prop and not k.get("fixed")]
